@@ -28,9 +28,11 @@ class Env:
 
 class Src:
     """Compile-time description of one FROM source."""
-    __slots__ = ('alias', 'lalias', 'cols', 'lmap', 'cs', 'table', 'idx')
+    __slots__ = ('alias', 'lalias', 'cols', 'lmap', 'cs', 'table', 'idx', 'dbl')
 
-    def __init__(self, alias, cols, cs=None, table=None, idx=0):
+    def __init__(self, alias, cols, cs=None, table=None, idx=0, dbl=None):
+        self.dbl = dbl if dbl is not None else (
+            {c.name for c in table.cols if c.ty.base == 'double'} if table is not None else set())
         self.alias = alias
         self.lalias = alias.lower()
         self.cols = list(cols)
@@ -172,6 +174,79 @@ class ExprCompiler:
             return bool(r[-1])
         if k == 'func' and node.name in ('COALESCE', 'IFNULL', 'IF', 'MAX', 'MIN', 'LOWER', 'UPPER'):
             return any(self.static_cs(a, scope) for a in node.args if isinstance(a, N))
+        return False
+
+    _DBL_FUNCS = {'SUM', 'AVG', 'MAX', 'MIN', 'COALESCE', 'IFNULL', 'IF', 'GREATEST', 'LEAST', 'ABS', 'ROUND', 'FLOOR',
+                  'CEIL', 'CEILING', 'NULLIF'}
+
+    def static_double(self, node, scope) -> bool:
+        """Static result-type inference, only as far as needed to return DOUBLE (python float) from
+        COALESCE/IFNULL/IF/CASE over a DOUBLE expression when the chosen branch is an integer literal
+        (e.g. COALESCE(SUM(`usage` * rate), 0) is 0.0, not 0, for zero rows)."""
+        k = node.k
+        if k == 'lit':
+            return isinstance(node.v, float)
+        if k in ('paren', 'neg'):
+            return self.static_double(node.e, scope)
+        if k == 'bin':
+            return node.op in ('+', '-', '*', '/', '%') and (self.static_double(node.l, scope)
+                                                             or self.static_double(node.r, scope))
+        if k == 'col':
+            r = self.try_resolve(scope, node)
+            if r is None or r[0] == 'var':
+                return False
+            if r[0] == 'col':
+                s, d = scope, r[1]
+                while d:
+                    s = s.parent
+                    d -= 1
+                return r[3] in s.sources[r[2]].dbl
+            return scope.ctx.trigger_table.colmap[r[1].lower()].ty.base == 'double'
+        if k == 'func':
+            if node.name == 'RAND':
+                return True
+            if node.name in self._DBL_FUNCS:
+                args = node.args[1:] if node.name == 'IF' else node.args
+                return any(self.static_double(a, scope) for a in args)
+            return False
+        if k == 'case':
+            return any(self.static_double(v, scope) for _c, v in node.whens) or \
+                (node.els is not None and self.static_double(node.els, scope))
+        if k == 'cast':
+            return node.ty.base == 'double'
+        if k == 'assign':
+            return self.static_double(node.e, scope)
+        return False
+
+    @staticmethod
+    def _as_double(f):
+        def g(env):
+            v = f(env)
+            if v is not None and v.__class__ is not float and isinstance(v, (int, Decimal)):
+                return float(v)
+            return v
+        return g
+
+    def static_enum(self, node, scope) -> bool:
+        """Is the expression a bare ENUM column?  (ENUMs order by member index in MySQL, which minimysql does
+        not model: ordering comparisons on them are refused.)"""
+        node = node
+        while node.k == 'paren':
+            node = node.e
+        if node.k != 'col':
+            return False
+        r = self.try_resolve(scope, node)
+        if r is None:
+            return False
+        if r[0] == 'col':
+            s, d = scope, r[1]
+            while d:
+                s = s.parent
+                d -= 1
+            t = s.sources[r[2]].table
+            return t is not None and t.colmap[r[3].lower()].ty.base == 'enum'
+        if r[0] in ('new', 'old'):
+            return scope.ctx.trigger_table.colmap[r[1].lower()].ty.base == 'enum'
         return False
 
     def local_sources(self, node, scope):
@@ -409,6 +484,8 @@ class ExprCompiler:
                     return 1 if a is None and b is None else 0
                 return 1 if compare(a, b, cs) == 0 else 0
             return nseq
+        if op != '<>' and (self.static_enum(node.l, scope) or self.static_enum(node.r, scope)):
+            raise NotSupported('ordering comparison on an ENUM column (MySQL compares ENUM member indexes)')
         test = {'<>': lambda c: c != 0, '<': lambda c: c < 0, '<=': lambda c: c <= 0, '>': lambda c: c > 0,
                 '>=': lambda c: c >= 0}[op]
 
@@ -508,7 +585,7 @@ class ExprCompiler:
                 if truth(cf(env)):
                     return vf(env)
             return None if els is None else els(env)
-        return case
+        return self._as_double(case) if self.static_double(node, scope) else case
 
     def c_cast(self, node, scope):
         f = self.compile(node.e, scope)
@@ -661,7 +738,7 @@ class ExprCompiler:
                     if v is not None:
                         return v
                 return None
-            return coalesce
+            return self._as_double(coalesce) if self.static_double(node, scope) else coalesce
         if name == 'IFNULL':
             self._argc(name, n, 2)
             a0, a1 = args
@@ -669,11 +746,12 @@ class ExprCompiler:
             def ifnull(env):
                 v = a0(env)
                 return v if v is not None else a1(env)
-            return ifnull
+            return self._as_double(ifnull) if self.static_double(node, scope) else ifnull
         if name == 'IF':
             self._argc(name, n, 3)
             c, a, b = args
-            return lambda env: a(env) if truth(c(env)) else b(env)
+            if_ = lambda env: a(env) if truth(c(env)) else b(env)   # noqa: E731
+            return self._as_double(if_) if self.static_double(node, scope) else if_
         if name == 'NULLIF':
             self._argc(name, n, 2)
             a0, a1 = args
